@@ -23,7 +23,7 @@ def c07(prop, tier, verdict):
     def pcl(line, sc):
         ops = [x['op'] + (':' + x['path'] + ':' + x['sv'] + '/' + x['cv'] if x['op'] == 'establish' else '') for x in sc.get('steps', [])]
         return 'peer:%s:%s' % (line.get('ev'), '>'.join(ops[-3:]))
-    pcov, _ = eng_generic.run(prop, tier, verdict, 'Peer', 'peerlife', 'PPeer', pcl, consts={'MaxOps': '5', 'Slots': '{1, 2}'}, mc_cfg='Peer_mc.cfg', extra_cfg='VIEW view',
+    pcov, _ = eng_generic.run(prop, tier, verdict, 'Peer', 'peerlife', 'PPeer', pcl, consts={'MaxOps': '6' if tier == 'thorough' else '5', 'Slots': '{1, 2}'}, mc_cfg='Peer_mc.cfg', extra_cfg='VIEW view',
                               quick_sample=700, min_count=3000, nontrivial=lambda sc: len(sc.get('steps', [])) > 1, label='peerlife')
     cov['peer_model'] = pcov.get('model'); cov['peer_states'] = pcov.get('states'); cov['peer_scenarios'] = pcov['evaluations']
     cov['traces_validated_against_impl'] += pcov['traces_validated_against_impl']
@@ -99,7 +99,7 @@ def c09(prop, tier, verdict):
 def c16(prop, tier, verdict):
     def cl(line, s):
         return 'auth:%s/first=%s,pipe=%s,timing=%s,hook=%s-%s' % (line.get('ev'), s.get('first'), s.get('pipe'), s.get('timing'), s.get('hookpos'), s.get('hookverdict'))
-    cov, _ = eng_generic.run(prop, tier, verdict, 'Accept', 'auth', 'PAuth', cl, mc_cfg='Accept_mc.cfg', min_count=1000,
+    cov, _ = eng_generic.run(prop, tier, verdict, 'Accept', 'auth', 'PAuth', cl, mc_cfg='Accept_mc.cfg', min_count=1000, repeats=3 if tier == 'thorough' else 1,
                              nontrivial=lambda s: s['first'] != 'authgood' or s['pipe'] != 'none')
     return 'model_checking', cov, ['ServeConn path over the in-memory connection with the shipped auth checker plugin; the ListenAndServe path is not driven',
                                    'client behaviours: 11 first-message classes x 4 pipelining classes x 2 timings x 5 placements/verdicts of another accept hook (440 scenarios, all replayed)']
@@ -107,7 +107,7 @@ def c16(prop, tier, verdict):
 def c17(prop, tier, verdict):
     def cl(line, s):
         return 'secure:%s/kind=%s,marker=%s,accept=%s,enforce=%s,keys=%s,codec=%s' % (line.get('ev'), s.get('kind'), s.get('marker'), s.get('accept'), s.get('enforce'), s.get('keys'), s.get('codec'))
-    cov, _ = eng_generic.run(prop, tier, verdict, 'Secure', 'secure', 'PSecure', cl, mc_cfg='Secure_mc.cfg', min_count=500,
+    cov, _ = eng_generic.run(prop, tier, verdict, 'Secure', 'secure', 'PSecure', cl, mc_cfg='Secure_mc.cfg', min_count=500, repeats=3 if tier == 'thorough' else 1,
                              nontrivial=lambda s: s['marker'] != 'none' or s['accept'] != 'absent' or s['enforce'])
     return 'model_checking', cov, ['matrix complete: kind x secure marker x accept-secure x enforced secure reply x equal/different keys x key length 16/24/32 x codec json/protobuf x 4 body classes',
                                    'clear-text detection searches the captured bytes for the 31-character random tag (and the head of the padding); the cipher itself is not analysed',
@@ -129,7 +129,7 @@ def c18(prop, tier, verdict):
     # a refill of more than one token per tick: capacity 10, interval 500 ms (5 per tick): partial drain, one tick, burst
     rates += [{'rate': {'cap': 10, 'interval_ms': 500, 'bursts': b, 'waits_ms': w}, 'steps': []}
               for b, w in (([1, 24], [560]), ([3, 20, 20], [540, 20]))]
-    cov, _ = eng_generic.run(prop, tier, verdict, 'Overload', 'overload', 'POverload', cl, consts={'MaxOps': '7', 'GuardRelease': 'TRUE', 'Limits': '{0, 1, 2}'},
+    cov, _ = eng_generic.run(prop, tier, verdict, 'Overload', 'overload', 'POverload', cl, consts={'MaxOps': '8' if tier == 'thorough' else '7', 'GuardRelease': 'TRUE', 'Limits': '{0, 1, 2}'},
                              mc_cfg='Overload_mc.cfg', extra_cfg='VIEW view', min_count=3000, nontrivial=lambda s: len(s.get('steps', [])) > 2, extra_scenarios=rates)
     cov['atomic_model'] = 'spec/OverloadAtomic.tla: 3 concurrent take/release threads at atomic-operation granularity, limit 2: %d distinct states, NeverOver holds' % ra['distinct']
     return 'model_checking', cov, ['connection limit 1..3, histories of at most 7 operations (connect, concurrent burst of 2-3 connects, disconnect, close, raise of the limit), one scenario per transition of the model',
@@ -139,7 +139,7 @@ def c18(prop, tier, verdict):
 def c19(prop, tier, verdict):
     def cl(line, s):
         return 'proxy:%s/kind=%s,method=%s,codec=%s,reqmeta=%s,replymeta=%s,failure=%s' % (line.get('ev'), s.get('kind'), s.get('method'), s.get('codec'), s.get('reqmeta'), s.get('replymeta'), s.get('failure'))
-    cov, _ = eng_generic.run(prop, tier, verdict, 'Proxy', 'proxy', 'PProxy', cl, mc_cfg='Proxy_mc.cfg', min_count=200,
+    cov, _ = eng_generic.run(prop, tier, verdict, 'Proxy', 'proxy', 'PProxy', cl, mc_cfg='Proxy_mc.cfg', min_count=200, repeats=3 if tier == 'thorough' else 1,
                              nontrivial=lambda s: s['reqmeta'] != 'none' or s['replymeta'] != 'none' or s['failure'] != 'none' or s['method'] != 'echo')
     return 'exploration', cov, ['three real peers (caller, proxy with the shipped plugin, backend) over in-memory connections, plus the same caller connected directly to the backend as the reference',
                                 'request space of spec/Proxy.tla: kind x method (served / failing / missing at the backend) x codec json/protobuf x request metadata classes x reply metadata classes x body classes x backend failure (down before, cut during)',
